@@ -277,6 +277,10 @@ def run(rep: Report, tier: str) -> None:  # noqa: C901
                             f"inside an operator whose parameters are bound {({k: getattr(v, 'value', v) for k, v in _scopes[0].items()} if _scopes else {})}, the name {_ask!r} resolves to {_got!r}; "
                             f"the call passes {_want!r}: `partition by` / `order by` (and calc, rename, group by) inside the operator then address a different component than the caller named"))
     rep.floor("R06.10 binding shapes", _nu, 6)
+    # ---- R06.11: the analytic result has the measures semantic analysis declares (shared with C10) ----
+    rep.rule("R06.11", "dataset-level analytic operators: the measures Analytic.validate declares == the measure columns of the generated SELECT, for one and two operand measures")
+    from sa.checks.c10 import analytic_measures_agree as _ama
+    _ama(P, rep, "R06.11")
     rep.assumptions = ["DuckDB's window functions of the same name implement the VTL analytic operators over the given OVER clause",
                        "grammar alternative <-> constructor method pairing (ANTLR naming)"]
 
